@@ -30,7 +30,14 @@ RULE = ("every multiset of <= nmax points over the lattice L^d (all sizes, dupli
         "deviation per build, for 'fast'; all 51 leave-one-out samples at 51 points); a build is cut only where a "
         "leaf state (index set, axis) repeats. Distinct trees of one point array are queried once: every query "
         "point of Q^d (lattice values, midpoints, one step outside), every k in 1..n+1, radii {0,1/2,1,sqrt2,8,inf}. "
-        "A distinct non-trivial case = (point array, tree) with at least one internal node")
+        "A distinct non-trivial case = (point array, tree) with at least one internal node. Argument forms: every "
+        "multiset of the forms families is handed to the constructor in every listed form (ndarray float64 C / Fortran "
+        "/ strided view / read-only view, float32, int64, lists of int or float tuples, of lists, of Vec), leaf size "
+        "1..2 x strategy x every pivot answer; its distinct trees with an internal node are queried (every query point, "
+        "k in 1..n+1, all radii; the first tree of the float64 / int64 / int-tuple forms in the 8 query forms Vec / "
+        "ndarray / list / tuple x float / int, int-typed only for positions without fractional part), the argument "
+        "containers are compared with their snapshot, then the caller edits his container in place (re-centre, "
+        "overwrite rows, sort columns) and all trees are asked again against the same brute-force table")
 ASSUMPTIONS = [
     "numpy itself is trusted (np.median is permutation invariant, np.extract keeps order); only kdtree.py's np global is proxied",
     "coordinates are restricted to the listed lattices (floats that are exact small integers; half-integers for queries), "
@@ -40,12 +47,20 @@ ASSUMPTIONS = [
     "termination hook relies on KDTree._split_points being the only place where a leaf is split (a vacuity guard "
     "checks the hook fired and a numpy-access counter on the proxy is an independent backstop)",
     "'fast' above 50 points is only exercised at exactly 51 points (51 leave-one-out root samples), never 52+",
+    "argument forms: containers and element types that numpy converts to an (N,d) array and positions that numpy "
+    "subtracts from a row are treated as legal input (the unchanged library answers all of them); float32 is used for "
+    "stored points only (lattice values are exact in float32), never for query positions; quick: one caller edit per "
+    "(point set, form), kinds rotating so that every (form, edit) pair occurs; query forms other than Vec(float64) only "
+    "on the first distinct tree (in key order) of the three core build forms",
 ]
 BOUNDS = {
     "quick": "leaf sizes 1..3; k=1..n+1; radii {0,1/2,1,sqrt2,8,inf}. d=1: L={0,1,2,8,20}, n<=5, balanced/fast/random (all "
              "pivots), 11 query points; d=2: L={0,1,8}, n<=3, all strategies, 49 query points; L={0,1,2,8,20}, n<=3, all "
              "strategies, build clauses only; d=3: L={0,8}, n<=2 all strategies, n=3 balanced/fast, queries on "
-             "{-1,0,4,8}^3; fast@51 distinct points on a line, leaf 3, 51 leave-one-out root samples",
+             "{-1,0,4,8}^3; fast@51 distinct points on a line, leaf 3, 51 leave-one-out root samples; argument forms / "
+             "ownership: d=1 L={0,1,8} n=1..3 (7 query points), d=2 L={0,1,8} n=1..2 (16 query points of "
+             "{-1/2,0,9/2,8}^2), 10 build forms, leaf 1..2, all strategies and pivots, 8 query forms, 1 of 3 caller edits "
+             "per container",
     "thorough": "leaf sizes 1..3; k=1..n+1; radii {0,1/2,1,sqrt2,8,inf}. d=1: L={0,1,2,8,20}, n<=6, all strategies, sorted and "
                 "reversed rows; d=2: L={0,1,8}: n<=3 all strategies sorted+reversed rows and int dtype, n=4 all strategies, "
                 "n=5 balanced/fast with 25 query points (lattice+midpoints); L={0,1,2,8}: n<=2 all strategies, n=3 "
@@ -53,7 +68,10 @@ BOUNDS = {
                 "L={0,1,2,8,20}: n<=3 all strategies, n=4 balanced/fast, n=5 balanced; d=3: L={0,8}: n<=3 all strategies "
                 "125 query points, n=4 balanced/fast 64 query points; build clauses only on L={0,1,8}: n<=3 all strategies, "
                 "n=4 balanced/fast; fast@51 points: line, 7x8 grid, 3 geometric clusters x leaf 1..3, 51 leave-one-out "
-                "root samples (leaf 3: plus <=1 reversed-sample deviation below 51 points)",
+                "root samples (leaf 3: plus <=1 reversed-sample deviation below 51 points); argument forms / ownership: "
+                "d=1 L={0,1,2,8,20} n=1..3 all strategies, n=4 balanced/fast (11 query points), d=2 L={0,1,8} n=1..2 (25 "
+                "query points) and n=3 balanced/fast (16 query points), d=3 L={0,8} n=1..2 (27 query points of "
+                "{-1/2,7/2,8}^3), 16 build forms, leaf 1..2, 8 query forms, each of the 3 caller edits on a fresh container",
 }
 
 L5 = [0, 1, 2, 8, 20]
@@ -133,6 +151,26 @@ def tasks(tier):
                 t = dict(f)
                 t.pop("nmin"); t.pop("nmax"); t.pop("batch")
                 t.update(n=n, start=start, stop=min(total, start + b))
+                out.append(t)
+        if i == 1:
+            out += _forms_tasks(tier)
+    return out
+
+
+def _forms_tasks(tier):
+    out = []
+    for f in _form_families(tier):
+        m = len(f["lat"]) ** f["d"]
+        for n in range(f["nmin"], f["nmax"] + 1):
+            total = n_multisets(m, n)
+            b = f["batch"]
+            for start in range(0, total, b):
+                t = dict(f)
+                for key in ("nmin", "nmax", "batch", "q", "orders", "dtype"):
+                    t.pop(key)
+                t["leafs"] = [1, 2]
+                t.update(kind="forms", n=n, start=start, stop=min(total, start + b), bforms=BFORMS[tier],
+                         all_edits=(tier != "quick"))
                 out.append(t)
     return out
 
@@ -298,11 +336,12 @@ class _Seam:
         return False
 
 
-def _build(arr, leaf, strat, script, symdev=True):
+def _build(arr, leaf, strat, script, symdev=True, shape=None):
     """One execution of the real constructor under an answer script.
-    Returns (status, tree_or_info, ctl); status in ok / cycle / cap / raises."""
+    Returns (status, tree_or_info, ctl); status in ok / cycle / cap / raises.
+    `arr` is handed to the constructor as is (any argument form); `shape` = (n, d) when it is not an array."""
     Probe = _probe_class()
-    n, d = arr.shape
+    n, d = shape if shape is not None else arr.shape
     ctl = _Ctl(script, n, d, symdev)
     _CUR[0] = ctl
     try:
@@ -320,7 +359,7 @@ def _build(arr, leaf, strat, script, symdev=True):
         _CUR[0] = None
 
 
-def _explore(arr, leaf, strat, symdev=True):
+def _explore(arr, leaf, strat, symdev=True, shape=None):
     """All executions of the constructor over every seam answer (stateless DFS).
     Returns dict(trees=[(tree, path)], trans={(key,axis): {pivot: (less, more)}}, statuses=Counter-like dict,
     paths=int, splits=int, seam_calls=int, capped=bool, raises=[...], caps=[...])."""
@@ -329,7 +368,7 @@ def _explore(arr, leaf, strat, symdev=True):
     stack = [()]
     while stack:
         script = stack.pop()
-        status, val, ctl = _build(arr, leaf, strat, script, symdev)
+        status, val, ctl = _build(arr, leaf, strat, script, symdev, shape)
         res["paths"] += 1
         res["splits"] += ctl.nsplits
         res["ticks"] += ctl.ticks
@@ -721,12 +760,431 @@ def _run_fast51(task, rep):
 
 
 # ------------------------------------------------------------------------------------------------
+# argument forms of the build and of the queries; ownership of the points (a history on the caller's container)
+#
+# "all finite point arrays (N,d)", "all query points": the answers are a function of the VALUES given at build
+# time and of the VALUE of the query position - not of the container / element type / memory layout they come
+# in, and not of what the caller does with his container afterwards.  Every point set of the form families is
+# handed to the real constructor in every form of BFORMS (all leaf sizes x strategies x pivot answers, distinct
+# trees kept), queried (phase "fresh"), then the caller edits his container IN PLACE and the same queries are
+# asked again (phase "after:<edit>"): the expectation is the same brute-force table both times.
+BFORMS = {
+    "quick": ["array:f8:C", "array:i8:C", "list:tuple:int", "array:f4:C", "array:f8:F", "array:f8:strided",
+              "array:f8:readonly", "list:tuple:float", "list:list:float", "list:Vec:float"],
+    "thorough": ["array:f8:C", "array:i8:C", "list:tuple:int", "array:f4:C", "array:f8:F", "array:f8:strided",
+                 "array:f8:readonly", "list:tuple:float", "list:list:float", "list:Vec:float", "array:i4:C", "array:i8:F",
+                 "array:i8:strided", "list:list:int", "tuple:tuple:int", "tuple:tuple:float"],
+}
+CORE_BFORMS = ["array:f8:C", "array:i8:C", "list:tuple:int"]     # crossed with every query form
+QFORMS_FLOAT = ["Vec:f8", "array:f8", "list:float", "tuple:float"]
+QFORMS_INT = ["Vec:i8", "array:i8", "list:int", "tuple:int"]                   # only for positions without fractional part
+EDITS = ["recentre", "overwrite", "sort"]
+
+
+def _form_families(tier):
+    if tier == "quick":
+        return [
+            _fam("forms-1d-L3", 1, L3, 1, 3, batch=4),
+            _fam("forms-2d-L3", 2, L3, 1, 2, batch=2, qalpha=[-1, 0, 9, 16]),
+        ]
+    return [
+        _fam("forms-1d-L5", 1, L5, 4, 4, batch=2, strategies=BF),
+        _fam("forms-2d-L3", 2, L3, 3, 3, batch=2, qalpha=[-1, 0, 9, 16], strategies=BF),
+        _fam("forms-1d-L5", 1, L5, 1, 3, batch=2),
+        _fam("forms-2d-L3", 2, L3, 1, 2, batch=1, qalpha=[-1, 0, 2, 9, 16]),
+        _fam("forms-3d-L2", 3, L2, 1, 2, batch=1, qalpha=[-1, 7, 16]),
+    ]
+
+
+def _edited(pts, edit):
+    """Coordinates the caller writes into his container (exact small integers again)."""
+    if edit == "recentre":          # P -= 3 ; P *= -3
+        return [tuple(-3 * (c - 3) for c in p) for p in pts]
+    if edit == "overwrite":         # P[::2] = 5
+        return [tuple(5 for _ in p) if i % 2 == 0 else tuple(p) for i, p in enumerate(pts)]
+    if edit == "sort":              # P[::-1].sort(axis=0): every column sorted on its own, descending
+        cols = [sorted((p[a] for p in pts), reverse=True) for a in range(len(pts[0]))] if pts else []
+        return [tuple(col[i] for col in cols) for i in range(len(pts))]
+    raise ValueError(edit)
+
+
+class _Held:
+    """The caller's container of points in one argument form: build it, fingerprint it, edit it in place."""
+
+    def __init__(self, form, pts, d):
+        import numpy as np
+        from mouette.geometry import Vec
+        self.form, self.d, self.n = form, d, len(pts)
+        kind, a, b = form.split(":")
+        self.base = None
+        if kind == "array":
+            dt = {"f8": np.float64, "f4": np.float32, "i8": np.int64, "i4": np.int32}[a]
+            arr = np.array(pts, dtype=dt).reshape(self.n, d)
+            if b == "F":
+                arr = np.asfortranarray(arr)
+            elif b == "strided":        # every second row / column of a larger array
+                self.base = np.full((2 * self.n + 1, 2 * d + 1), 77, dtype=dt)
+                view = self.base[1::2, 1::2]
+                view[...] = arr
+                arr = view
+            elif b == "readonly":       # a read-only view of an array somebody else may still write to
+                self.base = arr
+                arr = arr.view()
+                arr.flags.writeable = False
+            elif b != "C":
+                raise ValueError(form)
+            self.obj = arr
+            self.elem = "int" if np.issubdtype(dt, np.integer) else "float"
+            self.coarse = "ndarray:" + self.elem
+            self.editable = True
+        else:
+            cast = int if b == "int" else float
+            self.elem = "int" if b == "int" else "float"
+            if a == "Vec":
+                rows = [Vec(np.array([float(c) for c in p])) for p in pts]
+            elif a == "list":
+                rows = [[cast(c) for c in p] for p in pts]
+            else:
+                rows = [tuple(cast(c) for c in p) for p in pts]
+            self.obj = rows if kind == "list" else tuple(rows)
+            self.coarse = kind + ":" + self.elem
+            self.editable = kind == "list"
+            self.cast = cast
+        self.rows_kind = a
+
+    def snapshot(self):
+        import numpy as np
+        o = self.obj
+        if isinstance(o, np.ndarray):
+            return (o.tobytes(), str(o.dtype), o.shape, o.strides, o.flags.writeable,
+                    None if self.base is None else (self.base.tobytes(), str(self.base.dtype), self.base.shape))
+        return (type(o).__name__, [(type(r).__name__, [(type(c).__name__, float(c)) for c in r]) for r in o])
+
+    def write(self, new):
+        """In-place edit by the caller (never rebinding the container)."""
+        import numpy as np
+        o = self.obj
+        if isinstance(o, np.ndarray):
+            target = self.base if (self.base is not None and not o.flags.writeable) else o
+            if self.n:
+                target[...] = np.array(new, dtype=o.dtype).reshape(self.n, self.d)
+        elif self.rows_kind == "tuple":
+            o[:] = [tuple(self.cast(c) for c in p) for p in new]
+        else:
+            for i, p in enumerate(new):
+                for j, c in enumerate(p):
+                    o[i][j] = c if self.rows_kind == "Vec" else self.cast(c)
+
+
+def _make_query(qform, q2):
+    import numpy as np
+    from mouette.geometry import Vec
+    kind, el = qform.split(":")
+    if el in ("i8", "int"):
+        vals = [c // 2 for c in q2]
+        dt = np.int64
+    else:
+        vals = [c / 2 for c in q2]
+        dt = np.float64
+    if kind == "Vec":
+        return Vec(np.array(vals, dtype=dt))
+    if kind == "array":
+        return np.array(vals, dtype=dt)
+    return list(vals) if kind == "list" else tuple(vals)
+
+
+def _query_snapshot(q):
+    import numpy as np
+    if isinstance(q, np.ndarray):
+        return (type(q).__name__, q.tobytes(), str(q.dtype), q.shape)
+    return (type(q).__name__, [(type(c).__name__, c) for c in q])
+
+
+def _judge_knn(res, d4, sd4, k, n):
+    """None when `res` is a right answer of query(., k), else (clause, kind, info)."""
+    want = sd4[:k]
+    try:
+        idx = [int(i) for i in res]
+    except Exception:
+        return ("indices", "mismatch:not_an_index", dict(got=repr(res)))
+    if not all(isinstance(i, int) and 0 <= i < n for i in idx):
+        return ("indices", "mismatch:not_an_index", dict(got=idx))
+    got = [d4[i] for i in idx]
+    info = dict(got=idx, got_sq_distances=[g / 4 for g in got], want_sq_distances=[w / 4 for w in want])
+    if len(idx) != len(want):
+        return ("count", "mismatch:count", info)
+    if len(set(idx)) != len(idx):
+        return ("indices", "mismatch:repeated_index", info)
+    if sorted(got) != want:
+        return ("k_smallest", "mismatch:distances", info)
+    if got != want:
+        return ("order", "mismatch:not_non_decreasing", info)
+    return None
+
+
+def _judge_radius(res, d4, r4, n):
+    want = [i for i in range(n) if r4 is None or d4[i] <= r4]
+    try:
+        got = sorted(int(i) for i in res)
+    except Exception:
+        return ("exact_ball", "mismatch:not_an_index", dict(got=repr(res), want=want))
+    if got == want:
+        return None
+    if set(want) - set(got):
+        kind = "mismatch:point_in_ball_missing"
+    elif set(got) - set(want):
+        kind = "mismatch:point_outside_ball_returned"
+    else:
+        kind = "mismatch:repeated_index"
+    return ("exact_ball", kind, dict(got=got, want=want))
+
+
+def _ask_all(rep, tree, n, table, qforms_of, tag):
+    """Every query of the table in every listed query form.  Returns the failures as
+    (callee, kind, qi, label, qform, info) and the list of (qi, qform) whose argument was modified by a call."""
+    fails, touched = [], []
+    for qi, (q2, d4, sd4, integral) in enumerate(table):
+        for qform in qforms_of(integral):
+            qobj = _make_query(qform, q2)
+            before = _query_snapshot(qobj)
+            rep.count("forms_queries:" + qform)
+            if not integral:
+                rep.count("forms_fractional_queries:" + tag)
+            for k in range(1, n + 2):
+                rep.transitions += 1
+                rep.evaluations += 1
+                try:
+                    res = tree.query(qobj, k)
+                except Exception as e:
+                    fails.append(("KDTree.query", "raises:" + type(e).__name__, qi, "k=%d" % k, qform, dict(msg=str(e)[:200])))
+                    continue
+                bad = _judge_knn(res, d4, sd4, k, n)
+                if bad:
+                    fails.append(("KDTree.query", bad[1], qi, "k=%d" % k, qform, bad[2]))
+            for label, r4 in RADII4:
+                r = math.inf if r4 is None else math.sqrt(r4 / 4)
+                rep.transitions += 1
+                rep.evaluations += 1
+                try:
+                    res = tree.query_radius(qobj, r)
+                except Exception as e:
+                    fails.append(("KDTree.query_radius", "raises:" + type(e).__name__, qi, "r=" + label, qform, dict(msg=str(e)[:200])))
+                    continue
+                bad = _judge_radius(res, d4, r4, n)
+                if bad:
+                    fails.append(("KDTree.query_radius", bad[1], qi, "r=" + label, qform, bad[2]))
+            if _query_snapshot(qobj) != before:
+                touched.append((qi, qform))
+    return fails, touched
+
+
+def _form_attrs(form):
+    """Attribute vector of an argument form: (container, element type, exact form)."""
+    kind, a, b = form.split(":")
+    if kind == "array":
+        return ("ndarray", "int-typed" if a[0] == "i" else "float-typed", form)
+    return (kind, "int-typed" if b == "int" else "float-typed", form)
+
+
+def _set_class(failing, tried):
+    """Coarse, computed class of the set of argument forms on which one wrong behaviour showed, relative to the forms
+    on which the same question was asked: everything / one attribute value / a pair of attribute values / the list."""
+    failing, tried = sorted(set(failing)), sorted(set(tried))
+    if failing == tried:
+        return "any_form_tried"
+    at = {f: _form_attrs(f) for f in tried}
+    for pos in (0, 1):
+        for v in sorted({at[f][pos] for f in failing}):
+            if [f for f in tried if at[f][pos] == v] == failing:
+                return v
+    for v0 in sorted({at[f][0] for f in failing}):
+        for v1 in sorted({at[f][1] for f in failing}):
+            if [f for f in tried if at[f][:2] == (v0, v1)] == failing:
+                return v0 + ":" + v1
+    return "+".join(sorted({at[f][0] for f in failing})) + ":some_forms"
+
+
+def _run_forms_pointset(rep, pts, d, task, table, set_index):
+    n = len(pts)
+    all_edits = task["all_edits"]
+    asked_forms = []          # build forms whose trees were asked in phase "fresh"
+    fresh_fail = {}           # (callee, kind, qi, label) -> {build form: (failing query forms, tried query forms, tree detail, info)}
+    edited_forms = {}         # edit -> build forms whose container was effectively edited and asked again
+    own_fail = {}             # edit -> {build form: detail}
+    build_fail = {}           # (subcheck, kind) -> {build form: detail}
+    for fi, form in enumerate(task["bforms"]):
+        plans = EDITS if all_edits else [EDITS[(set_index + fi) % len(EDITS)]]
+        for pi, edit in enumerate(plans):
+            held = _Held(form, pts, d)
+            snap0 = held.snapshot()
+            pcls = "points=" + _form_attrs(form)[0]
+            base = dict(points=[list(p) for p in pts], points_given_as=form)
+            # ---- every build of this container
+            trees = {}
+            for leaf in task["leafs"]:
+                for strat in task["strategies"]:
+                    ex = _explore(held.obj, leaf, strat, symdev=True, shape=(n, d))
+                    rep.traces += ex["paths"]
+                    rep.transitions += ex["splits"]
+                    rep.count("constructor_runs", ex["paths"])
+                    rep.count("forms_constructor_runs", ex["paths"])
+                    if ex["capped"]:
+                        rep.flag("capped"); rep.count("capped_explorations")
+                    b2 = dict(base, max_leaf_size=leaf, strategy=strat)
+                    rep.evaluations += 1
+                    bad = _non_terminating_states(ex["trans"], leaf, d)
+                    if bad or ex["caps"]:
+                        build_fail.setdefault(("C11.forms.build", "hang"), {}).setdefault(
+                            form, dict(b2, stuck=[list(bad[0][0]), bad[0][1]] if bad else ex["caps"][0][0]))
+                    for val, path in ex["raises"][:1]:
+                        build_fail.setdefault(("C11.forms.build", "raises:" + val[0]), {}).setdefault(
+                            form, dict(b2, msg=val[1], pivot_script=list(path)))
+                    for tree, path in ex["trees"]:
+                        k = _tree_key(tree)
+                        if k not in trees:
+                            trees[k] = (tree, dict(b2, seam_answer_indices=path[0], split_values_in_call_order=path[1]))
+            rep.evaluations += 1
+            if held.snapshot() != snap0:
+                _viol(rep, "C11.forms.input_untouched", "KDTree.__init__", "side_effect:points_argument_modified", pcls,
+                      dict(base, now=repr(held.obj)))
+                held = None
+            # trees without internal node are asked only when the container has no other tree
+            nontrivial = [k for k in trees if _tree_shape(trees[k][0])[1]]
+            order = sorted(nontrivial or trees, key=repr)
+            fresh_ok = {}
+            # ---- phase "fresh" (only once per container form when several edits are planned)
+            for ti, k in enumerate(order):
+                tree, tdetail = trees[k]
+                leaves, ninternal = _tree_shape(tree)
+                if ninternal:
+                    rep.case(("forms", form, tuple(pts), k))
+                    rep.flag("forms:internal_node:" + form)
+                if pi > 0:
+                    continue
+                pk = _partition_defect(rep, tree, n)
+                if pk:
+                    build_fail.setdefault(("C11.forms.partition", pk[0]), {}).setdefault(form, dict(tdetail, leaf_contents=pk[1]))
+                # every query form on the first tree of the core build forms, the reference form elsewhere
+                if form in CORE_BFORMS and ti == 0:
+                    qforms_of = lambda integral: (QFORMS_FLOAT + QFORMS_INT) if integral else QFORMS_FLOAT
+                else:
+                    qforms_of = lambda integral: QFORMS_FLOAT[:1]
+                fails, touched = _ask_all(rep, tree, n, table, qforms_of, held_elem(form) + "_points")
+                fresh_ok[k] = not fails
+                groups = {}
+                for callee, kind, qi, label, qform, info in fails:
+                    groups.setdefault((callee, kind, qi, label), []).append((qform, info))
+                for key, lst in groups.items():
+                    if form not in fresh_fail.setdefault(key, {}):
+                        fresh_fail[key][form] = (sorted({qf for qf, _ in lst}), list(qforms_of(table[key[2]][3])), tdetail, lst[0][1])
+                for qi, qform in touched[:1]:
+                    _viol(rep, "C11.forms.input_untouched", "KDTree.query", "side_effect:query_argument_modified",
+                          "query=" + qform.split(":")[0], dict(tdetail, query=[c / 2 for c in table[qi][0]], query_given_as=qform))
+            if pi == 0 and order:
+                asked_forms.append(form)
+            if held is None:
+                continue
+            if pi == 0 and held.snapshot() != snap0:
+                _viol(rep, "C11.forms.input_untouched", "KDTree.query", "side_effect:points_argument_modified", pcls,
+                      dict(base, now=repr(held.obj)))
+                continue
+            # ---- the caller goes on working with HIS container, then asks again
+            if not held.editable or not order:
+                continue
+            new = _edited(pts, edit)
+            held.write(new)
+            if [tuple(p) for p in new] != [tuple(p) for p in pts]:
+                rep.flag("forms:edit_effective:%s:%s" % (edit, form))
+            edited_forms.setdefault(edit, []).append(form)
+            for k in order:
+                tree, tdetail = trees[k]
+                fails, _ = _ask_all(rep, tree, n, table, lambda integral: QFORMS_FLOAT[:1], "after_edit")
+                rep.count("forms_trees_asked_after_edit")
+                if fails and fresh_ok.get(k, True) and form not in own_fail.setdefault(edit, {}):
+                    callee, kind, qi, label, qform, info = fails[0]
+                    own_fail[edit][form] = dict(tdetail, caller_then=edit, container_now=[list(p) for p in new],
+                                                first_wrong_call=callee, query=[c / 2 for c in table[qi][0]], call=label,
+                                                wrong_as=kind, wrong_calls=len(fails), **info)
+    # ---- one report per wrong behaviour, classified by the set of argument forms it showed on
+    for (sub, kind) in sorted(build_fail):
+        forms = sorted(build_fail[(sub, kind)])
+        _viol(rep, sub, "KDTree.__init__", kind, "points=" + _set_class(forms, task["bforms"]),
+              dict(build_fail[(sub, kind)][forms[0]], points_forms_wrong=forms, points_forms_tried=task["bforms"]))
+    for key in sorted(fresh_fail):
+        callee, kind, qi, label = key
+        per_form = fresh_fail[key]
+        integral = table[qi][3]
+        by_q = {}
+        for form, (failing_q, tried_q, tdetail, info) in per_form.items():
+            qcls = "any_form_tried" if failing_q == sorted(tried_q) else "+".join(sorted({qf.split(":")[0] for qf in failing_q}))
+            by_q.setdefault(qcls, []).append(form)
+        for qcls, forms in sorted(by_q.items()):
+            failing_q, tried_q, tdetail, info = per_form[forms[0]]
+            icls = "points=%s;query=%s;%s" % (_set_class(forms, asked_forms), qcls,
+                                              "integral_position" if integral else "fractional_position")
+            _viol(rep, "C11.forms.knn" if callee == "KDTree.query" else "C11.forms.radius", callee, kind, icls,
+                  dict(tdetail, query=[c / 2 for c in table[qi][0]], call=label, query_given_as=failing_q,
+                       query_forms_tried=tried_q, points_forms_wrong=sorted(forms), points_forms_asked=asked_forms, **info))
+    if own_fail:
+        # the kind of edit is not part of the class: a tree that reads the caller's container follows every edit
+        first = {}
+        for edit in EDITS:
+            for form, det in own_fail.get(edit, {}).items():
+                first.setdefault(form, det)
+        tried = sorted({f for fs in edited_forms.values() for f in fs})
+        # classified by the kind of container only: which of its forms show it on one point set depends on whether
+        # the edit changes an answer there
+        for cont in sorted({_form_attrs(f)[0] for f in first}):
+            forms = sorted(f for f in first if _form_attrs(f)[0] == cont)
+            _viol(rep, "C11.build.owns_points", "KDTree.__init__", "side_effect:answers_follow_callers_container",
+                  "points=" + cont,
+                  dict(first[forms[0]], points_forms_wrong=forms, points_forms_edited=tried,
+                       edits_followed=sorted(e for e in own_fail if own_fail[e])))
+
+
+def held_elem(form):
+    return "int" if _form_attrs(form)[1] == "int-typed" else "float"
+
+
+def _partition_defect(rep, tree, n):
+    """None when every input index is stored in exactly one leaf, else (kind, leaf contents)."""
+    leaves, _ = _tree_shape(tree)
+    got = sorted(int(i) for lf in leaves for i in lf.points)
+    rep.evaluations += 1
+    if got == list(range(n)):
+        return None
+    miss = sorted(set(range(n)) - set(got))
+    dup = sorted({i for i in got if got.count(i) > 1})
+    kind = "mismatch:point_lost" if miss else ("mismatch:point_in_two_leaves" if dup else "mismatch:foreign_index")
+    return kind, [[int(i) for i in lf.points] for lf in leaves]
+
+
+def _run_forms(task, rep):
+    d, lat, n = task["d"], task["lat"], task["n"]
+    lattice_pts = list(itertools.product(lat, repeat=d))
+    gen = itertools.combinations_with_replacement(range(len(lattice_pts)), n)
+    qa = task.get("qalpha") or _qalphabet(lat)
+    qpoints2 = list(itertools.product(qa, repeat=d))
+    for off, combo in enumerate(itertools.islice(gen, task["start"], task["stop"])):
+        pts = [lattice_pts[i] for i in combo]
+        rep.count(f"formsets:{task['fam']}:n={n}")
+        pts2 = [tuple(2 * c for c in p) for p in pts]
+        table = []
+        for q2 in qpoints2:
+            d4 = [sum((a - b) ** 2 for a, b in zip(p, q2)) for p in pts2]
+            table.append((q2, d4, sorted(d4), all(c % 2 == 0 for c in q2)))
+        _run_forms_pointset(rep, pts, d, task, table, task["start"] + off)
+
+
+# ------------------------------------------------------------------------------------------------
 def run_task(task, rep):
     import mouette  # noqa: F401  (inside the function: the manifest generator parses drivers without the repo)
     with _Seam():
         rep.count("rng_ownership_checks")
         if task["fam"] == "fast51":
             _run_fast51(task, rep)
+        elif task.get("kind") == "forms":
+            _run_forms(task, rep)
         else:
             _run_family(task, rep)
 
@@ -746,6 +1204,25 @@ def finish(tier, rep):
                  "rng_ownership_checks", "build_ok", "distinct_trees"):
         if c.get(name, 0) <= 0:
             fails.append(f"counter {name} is zero: the hook / seam never fired")
+    for f in _form_families(tier):
+        m = len(f["lat"]) ** f["d"]
+        for n in range(f["nmin"], f["nmax"] + 1):
+            got = c.get(f"formsets:{f['fam']}:n={n}", 0)
+            want = sum(n_multisets(m, n) for g in _form_families(tier) if g["fam"] == f["fam"] and g["nmin"] <= n <= g["nmax"])
+            if got != want:
+                fails.append(f"family {f['fam']} n={n}: enumerated {got} point sets, expected {want}")
+    for form in BFORMS[tier]:
+        if "forms:internal_node:" + form not in rep.flags:
+            fails.append(f"argument form {form}: no tree with an internal node was queried")
+        if form.startswith("tuple:"):
+            continue
+        for edit in EDITS:
+            if f"forms:edit_effective:{edit}:{form}" not in rep.flags:
+                fails.append(f"argument form {form}: the caller's edit '{edit}' never changed a container that was asked again")
+    for name in (["forms_trees_asked_after_edit", "forms_fractional_queries:int_points", "forms_fractional_queries:float_points",
+                  "forms_fractional_queries:after_edit"] + ["forms_queries:" + q for q in QFORMS_FLOAT + QFORMS_INT]):
+        if c.get(name, 0) <= 0:
+            fails.append(f"counter {name} is zero: the argument-form clauses did not run")
     if c.get("seam_calls:balanced", 0) != 0:
         fails.append("the balanced strategy drew random numbers")
     for fl in ("input:duplicates_beyond_leaf_size", "tree:internal_node", "tree:three_internal_nodes", "tree:empty_leaf",
